@@ -20,8 +20,10 @@ ASSUMPTIONS = [
     "budgets with floor(n/2N) == 0 are a known finding of C01 and are not judged",
     "the schedule is enumerated completely over the stated (n, rhomax) grid; reward histories are sampled",
 ]
-FLOOR = {"gpo_rounds_checked": {"quick": 1000000, "thorough": 100000000}, "learners_created": {"quick": 20000, "thorough": 400000},
-         "gpo_scores_compared": {"quick": 400000, "thorough": 40000000}, "recommendations_checked": {"quick": 5000, "thorough": 100000}}
+FLOOR = {"gpo_rounds_checked": {"quick": 600000, "thorough": 4800000},
+         "learners_created": {"quick": 12000, "thorough": 96000},
+         "gpo_scores_compared": {"quick": 250000, "thorough": 2000000},
+         "recommendations_checked": {"quick": 3000, "thorough": 24000}}
 WALL = {"quick": 1200, "thorough": 5 * 3600}
 
 
